@@ -154,9 +154,14 @@ def r1(db, rep):
         if f is None:
             rep.analysis_broken("driver %s vanished" % d)
             continue
-        g = cfg.FnCFG(f)
         name = f["rec"].split("::")[-1] + "::decrypt"
-        trues = [n for n in facts.fn_nodes(f) if n["k"] == "ReturnStmt" and n.get("c") and facts.cval(n["c"][0]) == 1]
+        trues = []
+        for fb in driver_bodies(db, f):
+            tb = [n for n in facts.fn_nodes(fb) if n["k"] == "ReturnStmt" and n.get("c") and facts.cval(n["c"][0]) == 1]
+            if tb:
+                f, trues = fb, tb
+                break
+        g = cfg.FnCFG(f)
         if not trues:
             rep.violation("R1-integrity", name + ":returns-true", facts.loc(f), "driver never reports success")
             continue
@@ -220,10 +225,30 @@ def r2(db, rep):
     rep.extra["R2_functions"] = nf
 
 
+def driver_bodies(db, f):
+    """the driver and the bool members of its class whose result it returns (`return decrypt_data_frame(pdu);`): a driver
+    split into helpers is judged on the bodies that decide its result"""
+    out = [f]
+    for n in facts.fn_nodes(f):
+        if n["k"] == "ReturnStmt" and n.get("c"):
+            c = facts.strip_all(n["c"][0])
+            if c["k"] == "CXXMemberCallExpr" and c.get("callee"):
+                r = cfg.receiver(c)
+                h = db.fn(c["callee"])
+                if r is not None and strip(r)["k"] == "CXXThisExpr" and h is not None and h.get("body") and h.get("rec") == f.get("rec") and \
+                        (facts.tyi(h, h.get("ret")) or {}).get("k") == "bool" and h is not f:
+                    out.append(h)
+    return out
+
+
 def r3(db, rep):
-    f = db.fn(DRIVERS[1])
-    if f is None:
+    f0 = db.fn(DRIVERS[1])
+    if f0 is None:
         return
+    f = f0
+    for cand in driver_bodies(db, f0):
+        if any(n["k"] == "CXXMemberCallExpr" and n.get("cname") == "find" and "keys_" in facts.expr_str(cfg.receiver(n)) for n in facts.fn_nodes(cand)):
+            f = cand
     finds = [n for n in facts.fn_nodes(f) if n["k"] == "CXXMemberCallExpr" and n.get("cname") == "find" and
              "keys_" in facts.expr_str(cfg.receiver(n))]
     args = [facts.expr_str(cfg.args(n)[0]) for n in finds]
@@ -475,63 +500,69 @@ DS_SITES = (
 def r8(db, rep):
     from vlib import formula
     for q, roles, how in DS_SITES:
-        fs = [f for f in db.fns_named(q) if f.get("body") and any(
-            x["k"] == "CXXMemberCallExpr" and x.get("cname") in ("from_ds", "to_ds") for x in facts.fn_nodes(f))]
+        fs = [f for f in db.fns_named(q) if f.get("body")]
         short = q.split("::")[-2] + "::" + q.split("::")[-1]
         if not fs:
-            rep.analysis_broken("%s (with its To-DS / From-DS tests) vanished" % q)
+            rep.analysis_broken("%s vanished" % q)
             continue
         f = fs[0]
-        # atoms
+        from vlib import ieval
+        # the function is EXECUTED for the three infrastructure settings of (From-DS, To-DS) - bits are served to whatever
+        # reads them (an if-chain, a switch over a packed value computed by a file-local helper, ...) - and the address
+        # getters named in the return statement reached are compared with the 802.11 table
+
         def addrs(n):
             return frozenset(x.get("cname") for x in facts.walk(n) if x["k"] == "CXXMemberCallExpr" and x.get("cname") in ("addr1", "addr2", "addr3", "addr4"))
-        ds_ifs = [x for x in facts.fn_nodes(f) if x["k"] == "IfStmt" and any(
-            y["k"] == "CXXMemberCallExpr" and y.get("cname") in ("from_ds", "to_ds") for y in facts.walk([z for z in x["c"] if z is not None][0]))]
-        if not ds_ifs:
+        def reads_ds(n, depth=0):
+            for x in facts.walk(n):
+                if x["k"] == "CXXMemberCallExpr" and x.get("cname") in ("from_ds", "to_ds"):
+                    return True
+                if depth < 2 and x["k"] == "CallExpr" and x.get("callee") and not x.get("ext"):
+                    h_ = db.fn(x["callee"])
+                    if h_ is not None and h_.get("body") and not h_.get("rec") and reads_ds(h_["body"], depth + 1):
+                        return True
+            return False
+        # the region to execute: the statements of the innermost block that test the DS bits (the address selection), with the
+        # integer declarations in front of them
+        region = None
+        for blk in [x for x in facts.fn_nodes(f) if x["k"] == "CompoundStmt"]:
+            kids = [y for y in blk.get("c", []) if y is not None]
+            hit = [y for y in kids if reads_ds(y) and not (y["k"] in ("IfStmt", "CompoundStmt") and not any(
+                z["k"] == "CXXMemberCallExpr" and z.get("cname") in ("from_ds", "to_ds") for z in facts.walk([w for w in y["c"] if w is not None][0])) and y["k"] == "IfStmt" and not reads_ds([w for w in y["c"] if w is not None][0]))]
+            if hit:
+                first = kids.index(hit[0])
+                last = kids.index(hit[-1])
+                region = {"k": "CompoundStmt", "id": -1, "c": [y for y in kids[:first] if y["k"] == "DeclStmt"] + kids[first:last + 1]}
+        if region is None:
             rep.analysis_broken("%s: DS tests not found" % short)
             continue
-        top = ds_ifs[0]
-
-        def outcome(stmt, fd, td):
-            """addrN set selected by the if-chain for the given bits"""
-            if stmt is None:
-                return frozenset()
-            if stmt["k"] == "IfStmt":
-                real = [z for z in stmt["c"] if z is not None]
-                v = evalc(real[0], fd, td)
-                if v is None:
-                    raise ValueError("condition `%s`" % facts.expr_str(real[0]))
-                return outcome(real[1], fd, td) if v else outcome(real[2] if len(real) > 2 else None, fd, td)
-            return addrs(stmt)
-
-        def evalc(c, fd, td):
-            c0 = strip(c)
-            if c0["k"] == "BinaryOperator" and c0.get("op") in ("&&", "||"):
-                a, b = evalc(c0["c"][0], fd, td), evalc(c0["c"][1], fd, td)
-                if a is None or b is None:
-                    return None
-                return (a and b) if c0["op"] == "&&" else (a or b)
-            if c0["k"] == "UnaryOperator" and c0.get("op") == "!":
-                a = evalc(c0["c"][0], fd, td)
-                return None if a is None else (not a)
-            if c0["k"] == "CXXMemberCallExpr" and (c0.get("cname") or "").startswith("operator ") and c0["c"] and c0["c"][0].get("c"):
-                return evalc(c0["c"][0]["c"][0], fd, td)
-            if c0["k"] == "CXXMemberCallExpr" and c0.get("cname") == "from_ds":
-                return bool(fd)
-            if c0["k"] == "CXXMemberCallExpr" and c0.get("cname") == "to_ds":
-                return bool(td)
-            return None
+        top = region["c"][-1]
         bad = None
         try:
             for (fd, td) in ((0, 0), (0, 1), (1, 0)):
-                got = outcome(top, fd, td)
+                def tf(e, env, fd=fd, td=td):
+                    if e["k"] == "CXXMemberCallExpr" and e.get("cname") == "from_ds":
+                        return fd
+                    if e["k"] == "CXXMemberCallExpr" and e.get("cname") == "to_ds":
+                        return td
+                    if e["k"] == "CXXMemberCallExpr" and (e.get("cname") or "").startswith("operator ") and e["c"] and e["c"][0].get("c"):
+                        return ieval.ev(f, e["c"][0]["c"][0], env)      # small_uint<1> -> integer conversion
+                    return None
+                eff = ieval.trace(f, region, {"__termfn2__": tf, "__db__": db})
+                got = frozenset()
+                for k_, n_ in eff:
+                    if k_ in ("return", "call", "assign") and addrs(n_):
+                        got = addrs(n_)
+                        break
+                if not got and not eff:
+                    raise ieval.Unknown("nothing executed for From-DS=%d, To-DS=%d" % (fd, td))
                 want = frozenset(DS_TABLE[r][(fd, td)] for r in roles)
                 if got != want:
                     bad = ("From-DS=%d, To-DS=%d: uses %s; in that frame format the %s %s %s" %
                            (fd, td, sorted(got) or "no address", " and ".join(roles), "is" if len(roles) == 1 else "are", sorted(want)))
                     break
-        except ValueError as e:
-            rep.analysis_broken("%s: %s is outside the DS-table evaluator" % (short, e))
+        except ieval.Unknown as e:
+            rep.analysis_broken("%s: outside the finite evaluator: %s" % (short, e))
             continue
         key = "%s:ds-table" % short
         if bad:
